@@ -264,13 +264,13 @@ var propNotes = map[string]string{
 	"C02": "40 functions under functional contract (see MANIFEST level text). Not covered: eq/ne on reals, strings and names (they go through a function literal inside equal that the engine does not inline), cvx, exec, maxlength, matrix, findresource, readstring, the no-op access operators; mul overflow promotion only for multiplicands -1, 0, 1; put/putinterval/copy assume the target array is not the operand stack's backing array; contents of the dictionary built by >>; float arithmetic treated as real arithmetic.",
 	"C03": "what a procedure body does is abstract (executeOne used through its contract); iteration counts and forall operand order are not under functional contract; bind (executable names replaced by the operator their topmost binding denotes, literal names and other objects untouched, per element) and name lookup (topmost binding on the dictionary stack, for literal and executable names) are; the effect of bind on nested procedures (recursion, cycles) is covered by the per-element frame only.",
 	"C04": "clauses hold while at least four bytes are in memory (composition with refill at buffer boundaries is not proved); that the string under construction never aliases the scanner buffers is an antecedent, not proved; ScanToken dispatch, numbers, names, ASCII85, comments/DSC, String.PS / Name.PS round trips not under contract.",
-	"C05": "transparency of whole programs is the modular consequence of the byte-layer contracts, not a replayed equality; hex de-armouring loop of readByteEexec, readstring byte-exactness, the regurgitate path of BeginEexec and which mode value is stored after detection are not under functional contract.",
+	"C05": "covered: cipher step, hex/binary detection, hex armour of readByteEexec, mode discipline, closefile, the eexec operator's operand check and dictionary-stack restoration, readstring's result shape. Not covered: transparency of whole programs is the modular consequence of the byte-layer contracts, not a replayed equality; the bytes readstring stores are tied to the input only in clear-text mode (C12.read.tape); the regurgitate path of BeginEexec is not under functional contract.",
 	"C06": "covered: charstring decryption, number decoding, path/hint/side-bearing/div/setcurrentpoint/closepath/flex-move steps of decodeCharString. Not covered: callsubr/return/callothersubr argument handling, flex end curves, seac assembly, dictionary extraction by type1.Read through the interpreter, defaults of Private values, creation date parsing.",
 	"C07": "covered: the seven end* block operators, begin* limits, usecmap, range ordering and destination types, table comparators. Not covered: endcmap producing sorted tables (sort.Slice trusted; only the comparators are verified), ReadCMap's choice among several CMaps beyond determinism (C17), CIDSystemInfo/CMapType/WMode (ordinary def operators, C02).",
 	"C08": "covered: charstring obfuscation, eexec writer over the ghost output tape (each flush emits the eexec encryption of the buffered bytes, key state carried over; four lead bytes, first cipher byte not white space, one non-hex among them), hex writer over the output tape (two lower-case digits per byte, 39 bytes per line), stem hint encoding, number formats (C20), the StandardEncoding shortcut condition. Not covered: template text, PFB framing lengths, Length1/2/3, termination of the lead-byte search, the explicit encoding array text (writeEncoding through fmt), whole-stream composition of successive Write calls.",
 	"C10": "'writing succeeds without error' depends on text/template and Name.PS rejecting non-regular names (a glyph named << is accepted by the reader and refused by the writer: not claimed); re-read equalities go through text/template and the interpreter and are not expressible. Covered: no panic in any writer function for fonts satisfying fontWF, type1.Read establishes fontWF, coordinates within 1/214 (shared with C20).",
 	"C11": "'never counting past N+1' on the error-handler path and the two-run equality 'same state as with no budget' are not claimed; Go stack depth is not a value a contract can see; size limits of array/string/dict are covered by C01's make obligations only.",
-	"C12": "covered: the clear-text byte layer (refill, readByteRaw, readByte, Next, Peek) over the ghost input tape for every delivery schedule. Not covered: eexec mode, composition with the token layer beyond C04's per-token contracts, split-Execute equivalence, seekable vs non-seekable peek in type1.Read, afm.Read (bufio.Scanner, trusted), pfb (see C14).",
+	"C12": "covered: the clear-text byte layer (refill, readByteRaw, readByte, Next, Peek, Read) over the ghost input tape for every delivery schedule. Not covered: eexec mode, composition with the token layer beyond C04's per-token contracts, split-Execute equivalence, seekable vs non-seekable peek in type1.Read, afm.Read (bufio.Scanner, trusted), pfb (see C14).",
 	"C13": "truncation-never-yields-partial-result (depends on definefont being last in the file) and the upper reader layers (ScanToken, Execute, type1.Read, afm.Read) are not under the fault contract; fmt.Fprintf and text/template are trusted to perform their output through w.Write and to return the first write error.",
 	"C14": "the per-iteration step relation over the ghost tape is the specification; it is not folded into one closed formula for the whole output, and the error results (short segment, truncated end marker) are covered by safety and C13 only.",
 	"C16": "table contents (glyph list, AGLFN, Zapf Dingbats, compat expansions) are data; decision order of the lookups, '.'-suffix and '_' splitting (strings package), final scalar-range test of the u form, FromUnicode and the name/rune round trip are not under contract.",
